@@ -93,10 +93,14 @@ CLAIMED["C03"] = ("§0.6 / §4 C03",
     "Narrow: decides one mechanism the property names — bounds and validators are never dropped between insertion and the final validation: every path through the BoundValue and Validator cases of insertValueConjunct records the constraint (or leaves through the documented implied/finalised edges), the final validation consults both bounds and every pending check, getValidators carries them into non-concrete results, and disjunct clones copy them. It does NOT decide the cell values of SimplifyBounds (off-by-one, Ceil/Floor, kinds), which is the value-level core of the property.",
     "the bound-simplification decision table is value-level and not decided")
 
+CLAIMED["C05"] = ("§0.6 / §4 C05",
+    "CFG gates on the final closedness verdict (checkTypos) and on the required-field check (validator.validate)",
+    "Narrow: decides the shape of the final verdicts only — a 'field not allowed' error is produced only for present arcs that are neither hidden/definition/let nor supported by evidence, every arc failing both tests is reported before the next arc and the combined error is attached, and final validation reports every arc still ArcRequired. It does NOT decide which conjuncts provide evidence for which field (defID containment, replacement sets, pattern matching), which is the run-time core of the property.",
+    "evidence bookkeeping is value-level and not decided")
+
 # properties not claimed (yet) -> reason
 NOT_APPLICABLE = {
     "C04": "value-level: default selection is mode arithmetic across a run-time cross product of disjuncts; not decidable from code shape (DESIGN.md §4)",
-    "C05": "value-level: field admission depends on run-time closedness evidence sets; the available shape facts are not necessary conditions of the combinatorial cases (DESIGN.md §4)",
     "C13": "semantic equivalence of two schema languages on all instances; no structural necessary condition in reach (DESIGN.md §4)",
 }
 
